@@ -532,6 +532,42 @@ func genHistory(seed uint64, spec *GenesisSpec, g *genOpts) (*History, *HistResu
 				kinds += fmt.Sprintf(" %s:%d", gt.Kind, code)
 			}
 			fmt.Println(line, "txs:", kinds, "absent", opts.Absent, "ev", opts.Evidence)
+			{
+				comp := map[string]*big.Int{}
+				addc := func(k string, c uint64, v string) {
+					if c != 0 {
+						return
+					}
+					if comp[k] == nil {
+						comp[k] = big.NewInt(0)
+					}
+					comp[k].Add(comp[k], bi(v))
+				}
+				for _, a := range e.Accounts {
+					for _, b := range a.Balance {
+						addc("bal", b.Coin, b.Value)
+					}
+				}
+				for _, c := range e.Candidates {
+					for _, sk := range c.Stakes {
+						addc("stake", sk.Coin, sk.Value)
+					}
+					for _, sk := range c.Updates {
+						addc("upd", sk.Coin, sk.Value)
+					}
+				}
+				for _, wl := range e.Waitlist {
+					addc("wait", wl.Coin, wl.Value)
+				}
+				for _, f := range e.FrozenFunds {
+					addc("frozen", f.Coin, f.Value)
+				}
+				for _, v := range e.Validators {
+					addc("accum", 0, v.AccumReward)
+				}
+				addc("slashed", 0, e.TotalSlashed)
+				fmt.Printf("DBGC h=%d %v\n", n.Height, comp)
+			}
 		}
 		if br.Panic != "" && os.Getenv("VERIF_DEBUG") != "" {
 			e := n.Export()
@@ -775,15 +811,20 @@ func baseDiffKey(prev, cur *Holdings, dBase, dEm *big.Int) string {
 	if loss.Sign() <= 0 || prev.ValAccum == nil {
 		return "c01-base"
 	}
-	lost := big.NewInt(0)
+	lost, leavers := big.NewInt(0), big.NewInt(0)
 	n := 0
 	for k, a := range prev.ValAccum {
-		if _, stays := cur.ValAccum[k]; !stays && cur.CandOn[k] {
-			lost.Add(lost, a)
-			n++
+		if _, stays := cur.ValAccum[k]; !stays {
+			leavers.Add(leavers, a)
+			if cur.CandOn[k] {
+				lost.Add(lost, a)
+				n++
+			}
 		}
 	}
-	upper := new(big.Int).Add(lost, new(big.Int).Mul(dEm, big.NewInt(2)))
+	// upper bound: the deselected validators' own rewards plus their share of this block's pool, which also holds the
+	// rewards returned by the validators dropped in this block
+	upper := new(big.Int).Add(leavers, new(big.Int).Mul(dEm, big.NewInt(2)))
 	upper.Add(upper, pip(1000))
 	if n > 0 && loss.Cmp(lost) >= 0 && loss.Cmp(upper) <= 0 {
 		return "c01-deselected-validator-reward-lost"
